@@ -144,13 +144,13 @@ def run(ctx):
         shutil.rmtree(base, ignore_errors=True)
         root = os.path.join(base, "root")
         os.makedirs(root)
-        nd = rng.choice([900, 1500, 2500])
+        nd = [1500, 900, 2500][t] if t < 3 else rng.choice([900, 1500, 2500])
         for i in range(nd):
             os.mkdir(os.path.join(root, "2024-%02d-%02d.%d" % (1 + i % 12, 1 + (i // 12) % 28, 1 + i // 336)))
         open(os.path.join(root, ".running"), "w").write(os.path.join(root, "2024-01-01.1") + "\n")
         mode = reportgen.MODES[t % 5]
         conf = rr.conf(mode, root)
-        when = rng.choice([1, 2, 2, 3])
+        when = [2, 1, 2][t] if t < 3 else rng.choice([1, 2, 2, 3])      # (a fault on the call that would report the end is no partial listing)
         B = t % 2 == 1
         cmd = ["strace", "-f", "-o", "/dev/null", "-e", "trace=getdents64", "-e", "inject=getdents64:error=EIO:when=%d" % when,
                os.path.join(d, "robsd-ls"), "-m", mode, "-C", conf] + (["-B"] if B else [])
